@@ -27,3 +27,48 @@ pub(crate) fn wrap_socket(
         None => Err(socket),
     })
 }
+
+/// Certificate verification, exactly as configured by `EndpointConfig`.
+pub mod crypto {
+    use crate::{
+        crypto::{CertVerifier, ExpectedCertVerifier},
+        PeerId,
+    };
+    use rustls::client::danger::ServerCertVerifier;
+    use rustls::pki_types::{CertificateDer, PrivateKeyDer};
+    use rustls::server::danger::ClientCertVerifier;
+    use std::sync::Arc;
+
+    pub fn client_cert_verifier(server_names: Vec<String>) -> Arc<dyn ClientCertVerifier> {
+        Arc::new(CertVerifier { server_names })
+    }
+
+    pub fn server_cert_verifier(server_names: Vec<String>) -> Arc<dyn ServerCertVerifier> {
+        Arc::new(CertVerifier { server_names })
+    }
+
+    pub fn expected_server_cert_verifier(
+        server_names: Vec<String>,
+        expected: PeerId,
+    ) -> Arc<dyn ServerCertVerifier> {
+        Arc::new(ExpectedCertVerifier(CertVerifier { server_names }, expected))
+    }
+
+    pub fn peer_id_from_certificate(
+        certificate: &CertificateDer,
+    ) -> std::result::Result<PeerId, rustls::Error> {
+        crate::crypto::peer_id_from_certificate(certificate)
+    }
+
+    /// The certificate (and PKCS#8 key) a network with this key and name presents.
+    pub fn generate_cert(
+        private_key: [u8; 32],
+        server_name: &str,
+    ) -> (CertificateDer<'static>, PrivateKeyDer<'static>) {
+        let keypair = ed25519::KeypairBytes {
+            secret_key: private_key,
+            public_key: None,
+        };
+        crate::config::EndpointConfigBuilder::verif_generate_cert(&keypair, server_name)
+    }
+}
